@@ -19,10 +19,17 @@ def expression_set(tier):
 
     naive = [("cmp", "time", (), op, ("NAIVE", us)) for op in ("==", "!=", "<", ">=") for us in (BASE_US, BASE_US + 1)]
     A = list(A) + naive
+    # comparison values that are equal but not identical: an int and the equal float, the same instant presented in
+    # different zones (queries built from them may or may not compare equal - if they do, hash and behaviour must agree)
+    twins = []
+    for op in ("==", ">=", "<", "!="):
+        twins += [("cmp", "fields", ("x",), op, 2), ("cmp", "fields", ("x",), op, 2.0), ("cmp", "fields", ("x",), op, 0), ("cmp", "fields", ("x",), op, -0.0)]
+        twins += [("cmp", "time", (), op, ("T", BASE_US, 0)), ("cmp", "time", (), op, ("T", BASE_US, 330)), ("cmp", "time", (), op, ("T", BASE_US, -480))]
+    A = A + [t for t in twins if t not in A]
     E = list(A) + [("not", a) for a in A]
     sub = quick_atoms(A)[: (18 if tier == "quick" else 34)]
     lits = sub if tier == "quick" else sub + [("not", a) for a in sub[:12]]
-    lits = lits + naive[:3]
+    lits = lits + naive[:3] + twins[:7]
     for a in lits:
         for b in lits:
             E.append(("and", a, b))
